@@ -15,7 +15,7 @@ EXTENDS Regex, Json, IOUtils, TLC
 CONSTANT BlockSize
 Obs == JsonDeserialize(IOEnv.VERIF_OBS)
 N == Len(Obs)
-VARIABLES blk, i, culprit
+VARIABLES blk, i, culprit, failing
 
 \* ---------------------------------------------------------------------------------------------------
 \* structural fingerprints
@@ -35,7 +35,7 @@ IsCaretLedRange(v) == v.k = "set" /\ Len(v.ranges) > 0 /\ ~v.ranges[1].single /\
 Parsed(x) == x.outcome = "parsed"
 CulpritOf(x) ==
   [Inv_NeverRaises |-> IF x.outcome = "exception" THEN <<x.exc.type, x.exc.where>> ELSE <<"none">>,
-   Inv_ErrorPositioned |-> <<"none">>,
+   Inv_ErrorPositioned |-> IF x.outcome = "error" /\ x.exc.type # "" THEN <<x.exc.type, x.exc.where>> ELSE <<"none">>,
    Inv_RenderValid |->
       IF Parsed(x) /\ x.render = "exception" THEN <<x.render_exc.type, x.render_exc.where>>
       ELSE IF Parsed(x) /\ AnyValueAlt(x.parsed, IsEmptySet) THEN <<"empty_character_set">> ELSE <<"none">>,
@@ -50,12 +50,6 @@ CulpritOf(x) ==
       ELSE IF Parsed(x) /\ AnyValueAlt(x.parsed, IsCaretLedRange) THEN <<"caret_led_range">> ELSE <<"none">>,
    S_OracleAgreesWithRe |-> <<"none">>]
 
-Blocks == 0..((N - 1) \div BlockSize)
-Init == blk \in Blocks /\ i = 0 /\ culprit = <<>>
-Next == /\ i = 0
-        /\ \E j \in (blk * BlockSize + 1)..(IF (blk + 1) * BlockSize < N THEN (blk + 1) * BlockSize ELSE N) :
-              i' = j /\ culprit' = CulpritOf(Obs[j])
-        /\ UNCHANGED blk
 
 \* ---------------------------------------------------------------------------------------------------
 \* languages over the strings of the case.  Strings travel as numbers: the position of the string in the
@@ -73,30 +67,58 @@ Found(t, x) == {Idx(s, x.alpha) : s \in {u \in SearchStrings(x) : Search(t, u)}}
 SameLanguage(t1, t2, x) == t1 = t2 \/ (Lang(t1, x) = Lang(t2, x) /\ Found(t1, x) = Found(t2, x))
 Agrees(t, full, found, x) == SeqToSet(full) = Lang(t, x) /\ SeqToSet(found) = Found(t, x)
 
-Judged == i > 0
-o == Obs[i]
 
 \* "parsing ... either fails with a positioned error or succeeds, and never raises"
-Inv_NeverRaises == Judged => o.outcome # "exception"
-Inv_ErrorPositioned == Judged /\ o.outcome = "error" => o.positioned
+C_Inv_NeverRaises(o) == o.outcome # "exception"
+C_Inv_ErrorPositioned(o) == o.outcome = "error" => o.positioned
 \* "on success, re-rendering the tree gives a valid Python regular expression"
-Inv_RenderValid == Judged /\ Parsed(o) => o.render = "ok" /\ o.render_compiles
+C_Inv_RenderValid(o) == Parsed(o) => o.render = "ok" /\ o.render_compiles
 \* "... that matches exactly the same strings as the original": the parsed tree denotes the language of the
 \* original (the generated tree where the case has one, Python's reading of the text otherwise) ...
 \* Domain restriction: the retree dialect deliberately reads blanks inside {m,n} as insignificant (pinned
 \* tests of parse_retree), Python reads such braces as literals; such texts have no common "original" meaning.
-Inv_ParseKeepsLanguage ==
-  Judged /\ Parsed(o) =>
+C_Inv_ParseKeepsLanguage(o) ==
+  Parsed(o) =>
      IF o.has_tree THEN SameLanguage(o.parsed, o.tree, o)
      ELSE (o.orig_compiles /\ ~BlankInQuantifier(o.text) => Agrees(o.parsed, o.re_orig_full, o.re_orig_search, o))
 \* ... and the rendering, read by Python, matches exactly the language of the tree it was rendered from
-Inv_RenderKeepsLanguage ==
-  Judged /\ Parsed(o) /\ o.render = "ok" /\ o.render_compiles => Agrees(o.parsed, o.re_render_full, o.re_render_search, o)
+C_Inv_RenderKeepsLanguage(o) ==
+  Parsed(o) /\ o.render = "ok" /\ o.render_compiles => Agrees(o.parsed, o.re_render_full, o.re_render_search, o)
 \* "re-parsing that rendering reproduces the same tree"
-Inv_ReparseSameTree == Judged /\ Parsed(o) /\ o.render = "ok" => o.reparse = "parsed" /\ o.reparsed = o.parsed
+C_Inv_ReparseSameTree(o) == Parsed(o) /\ o.render = "ok" => o.reparse = "parsed" /\ o.reparsed = o.parsed
 \* S: the oracle itself -- Python `re` reads the canonical text of a generated tree as Regex.tla reads the tree
-S_OracleAgreesWithRe ==
-  Judged /\ o.has_tree => o.orig_compiles /\ Agrees(o.tree, o.re_orig_full, o.re_orig_search, o)
+C_S_OracleAgreesWithRe(o) ==
+  o.has_tree => o.orig_compiles /\ Agrees(o.tree, o.re_orig_full, o.re_orig_search, o)
+
+\* every clause is evaluated once per observation, when the observation is taken up (Next): `failing` is the set of
+\* clauses the observation violates.  The invariants only look the names up, so that TLC -- which reports the first
+\* violated invariant of a state only -- still hands over *all* violated clauses of the case with the state it prints
+\* (a clause under a known finding cannot mask another clause on the same case).
+ClauseNames == {"Inv_NeverRaises", "Inv_ErrorPositioned", "Inv_RenderValid", "Inv_ParseKeepsLanguage", "Inv_RenderKeepsLanguage", "Inv_ReparseSameTree", "S_OracleAgreesWithRe"}
+Holds(n, x) ==
+  CASE n = "Inv_NeverRaises" -> C_Inv_NeverRaises(x)
+    [] n = "Inv_ErrorPositioned" -> C_Inv_ErrorPositioned(x)
+    [] n = "Inv_RenderValid" -> C_Inv_RenderValid(x)
+    [] n = "Inv_ParseKeepsLanguage" -> C_Inv_ParseKeepsLanguage(x)
+    [] n = "Inv_RenderKeepsLanguage" -> C_Inv_RenderKeepsLanguage(x)
+    [] n = "Inv_ReparseSameTree" -> C_Inv_ReparseSameTree(x)
+    [] n = "S_OracleAgreesWithRe" -> C_S_OracleAgreesWithRe(x)
+FailingOf(x) == {n \in ClauseNames : ~Holds(n, x)}
+
+Blocks == 0..((N - 1) \div BlockSize)
+Init == blk \in Blocks /\ i = 0 /\ culprit = <<>> /\ failing = {}
+Next == /\ i = 0
+        /\ \E j \in (blk * BlockSize + 1)..(IF (blk + 1) * BlockSize < N THEN (blk + 1) * BlockSize ELSE N) :
+              i' = j /\ culprit' = CulpritOf(Obs[j]) /\ failing' = FailingOf(Obs[j])
+        /\ UNCHANGED blk
+
+Inv_NeverRaises == "Inv_NeverRaises" \notin failing
+Inv_ErrorPositioned == "Inv_ErrorPositioned" \notin failing
+Inv_RenderValid == "Inv_RenderValid" \notin failing
+Inv_ParseKeepsLanguage == "Inv_ParseKeepsLanguage" \notin failing
+Inv_RenderKeepsLanguage == "Inv_RenderKeepsLanguage" \notin failing
+Inv_ReparseSameTree == "Inv_ReparseSameTree" \notin failing
+S_OracleAgreesWithRe == "S_OracleAgreesWithRe" \notin failing
 
 \* non-vacuity counters
 IsError(x) == x.outcome = "error"
